@@ -1,9 +1,10 @@
 import Driver.Util
 import Driver.C08
 import Driver.C09
+import Driver.C10
 open Drv
 
-def handlers : List (String → Handler) := [Drv.C08.handle, Drv.C09.handle]
+def handlers : List (String → Handler) := [Drv.C08.handle, Drv.C09.handle, Drv.C10.handle]
 
 def answer (line : String) : String :=
   let (lhs, impl) := match line.trimAscii.toString.splitOn " => " with
